@@ -189,6 +189,23 @@ def sliver(rng, h=1e-6):
     return v @ random_rotation(rng).T + rng.uniform(-1, 1, 3), t
 
 
+def pinched(closed=True):
+    """two parts that touch in exactly one vertex (edge-manifold, not vertex-manifold): two octahedra / two fans sharing a vertex"""
+    if closed:
+        v1, t1 = octahedron()
+        v2 = v1 + np.array([2.0, 0.0, 0.0])          # vertex 1 of the second (-1,0,0)+(2,0,0) = (1,0,0) = vertex 0 of the first
+        t2 = t1 + len(v1)
+        t2 = np.where(t2 == len(v1) + 1, 0, t2)
+        keep = [i for i in range(2 * len(v1)) if i != len(v1) + 1]
+        ren = {old: new for new, old in enumerate(keep)}
+        v = np.vstack([v1, v2])[keep]
+        t = np.vectorize(ren.get)(np.vstack([t1, t2]))
+        return v, t.astype(np.int64)
+    v = np.array([[0, 0, 0], [1, 0, 0], [1, 1, 0.2], [0, 1, 0], [-1, 0, 0.1], [-1, -1, 0], [0, -1, 0.3]], float)
+    t = np.array([[0, 1, 2], [0, 2, 3], [0, 4, 5], [0, 5, 6]], dtype=np.int64)
+    return v, t
+
+
 def delaunay_patch(rng, n):
     from scipy.spatial import Delaunay
     while True:
@@ -392,7 +409,7 @@ def use(case):
         _ACTIVE["installed"] = True
 
 
-def big_cases(seed, thorough=False):
+def big_cases(seed, thorough=False, huge=False):
     """a few meshes well above the sizes of the random families (size-dependent code paths: > 256, > 2^15 elements ... )"""
     import os
     if os.environ.get("VERIF_ESCALATED") == "1":
@@ -402,6 +419,8 @@ def big_cases(seed, thorough=False):
     fams = [("icosphere3", icosphere(3)), ("torus24x20", torus(24, 20)), ("grid20x15-lifted", (lift(rng, grid(20, 15)[0]), grid(20, 15)[1]))]
     if thorough:
         fams += [("icosphere5", icosphere(5)), ("torus150x120", torus(150, 120))]          # 10242 / 18000 vertices, > 2^15 triangles
+    if huge:
+        fams += [("torus220x190", torus(220, 190))]          # > 2^15 vertices, > 2^16 triangles
     for name, (v, t) in fams:
         v = jitter(rng, np.asarray(v, float) * rng.uniform(0.7, 1.4, 3), 0.002)
         out.append(dict(v=v, t=np.asarray(t, np.int64), tags={name, "big"}, name=name))
@@ -457,6 +476,8 @@ def tria_bases(rng, size="small"):
     out.append(("two-spheres", union(icosphere(0), octahedron())))
     out.append(("graded", graded_disc(int(rng.integers(9, 14)), int(rng.integers(6, 10)))))
     out.append(("glued-tetras", glued_tetras()))
+    out.append(("pinched-closed", pinched(True)))
+    out.append(("pinched-open", pinched(False)))
     out.append(("theta", theta(int(rng.integers(3, 7)))))
     return out
 
@@ -567,6 +588,14 @@ def tet_stream(seed, n, size="small", modifiers=True):
         bases = [("cube5", cube5()),
                  ("cube6-grid", cube_grid(int(rng.integers(1, 3 if not big else 4)), int(rng.integers(1, 3)), int(rng.integers(1, 2 if not big else 4)))),
                  ("delaunay3", delaunay_fill(rng, int(rng.integers(5, 10 if not big else 40))))]
+        # elements of very different size in one mesh (volume ratio ~1e13): thresholds relative to the largest element must not exist
+        if rnd % 2:
+            mg = cube_grid(2, 2, 2)
+            ticks = np.array([0.0, 10.0 ** rng.uniform(-4.8, -4.2), 1.0])
+        else:
+            mg = cube_grid(3, 3, 3)
+            ticks = np.array([0.0, 10.0 ** rng.uniform(-3.5, -2.5), 1.0, 10.0 ** rng.uniform(2.5, 3.2)])
+        bases.append(("multi-scale", (ticks[mg[0].astype(int)], mg[1])))
         g = cube_grid(2, 2, 1 if not big else 2)
         sub = rng.random(len(g[1])) < 0.6
         if sub.sum() >= 2:
